@@ -18,6 +18,13 @@ class ToolError(Exception):
     pass
 
 
+class HarnessHang(Exception):
+    """a call into geo did not return within the watchdog limit: data (a violation), not a tool error"""
+    def __init__(self, info):
+        Exception.__init__(self, ("panic: %s" % info["panic"]) if "panic" in info else "no return within %ss" % info.get("limit_s"))
+        self.info = info
+
+
 def log(*a):
     print(*a, flush=True)
 
@@ -154,6 +161,12 @@ def run_harness(args, timeout=3000, env_extra=None):
     t0 = time.time()
     r = subprocess.run(["timeout", str(timeout), HBIN] + [str(a) for a in args], stdout=subprocess.PIPE,
                        stderr=subprocess.STDOUT, text=True, env=env)
+    hang = str(args[2]) + ".hang" if len(args) > 2 else None       # replay <cases> <out> / record <kind> <out>
+    if r.returncode == 3 and hang and os.path.exists(hang):
+        with open(hang) as f:
+            info = json.load(f)
+        info["harness_args"] = [str(a) for a in args]
+        raise HarnessHang(info)
     if r.returncode != 0:
         log(r.stdout[-3000:])
         raise ToolError("harness exited %d on %s" % (r.returncode, args[:2]))
